@@ -1098,3 +1098,121 @@ PROPS['C18'] = dict(gen=gen_c18, relevant=('C18|', 'C08|reconstruction', 'C08|re
                     'distinct = sha1(case); non-trivial = a prefixed run that returned; oracle: the digest of every output byte (L/U structure and values, permutations, X, info) equals the fresh-process digest',
                     floors={'probe_runs_compared_with_fresh_process': 100},
                     assumptions=['prefix histories in another precision are not exercised: each probe binary links one precision\'s harness (the per-precision static state is disjoint by construction)'])
+
+# ---- C16 ----
+def gen_c16(ctx):
+    rng = ctx.rng
+    out = []
+    N = 1500 if ctx.quick else 25000
+    pv = spread(rng, N)
+    for i in range(N):
+        c = factor_case(rng, ctx.quick, 'gstrf', fams=['rand', 'band', 'grid', 'arrow', 'star', 'forest', 'chain', 'dense'], pmodes=(0, 1, 2, 3), nps=[1, 2, 4, 8])
+        c['symm'] = 1; c['ord'] = rng.choice([2, 2, 2, 0]); c['u'] = 0.0; c['expect_diag'] = 1
+        c['vals'] = rng.choice(['generic', 'int', 'hostile']); c['dom'] = rng.choice(['row', 'col'])
+        c.pop('rscale', None); c.pop('cscale', None)
+        if rng.random() < 0.4: c['symmpat'] = 1
+        v = 'plain'
+        env = {}
+        r = rng.random()
+        if r < 0.25: v = 'asan'
+        elif r < 0.32: v = 'tsan'
+        m = {'variant': v, 'prec': pv[i]}
+        if v == 'tsan': m['per_process'] = True; c['n'] = min(c['n'], 60); c['oracle'] = 0
+        out.append((m, c))
+    # through the expert driver as EXAMPLE/p?linsolx2.c does
+    M = 400 if ctx.quick else 6000
+    for i in range(M):
+        prec = rng.choice(PRECS)
+        c = gssvx_case(rng, prec, ctx.quick, kind='sparse')
+        c['fam'] = rng.choice(['band', 'grid', 'arrow', 'star', 'forest', 'rand']); c.pop('cond', None); c.pop('svmode', None)
+        if c['fam'] == 'rand': c['dens'] = round(min(1.0, 3.0 / max(c['n'], 1)), 4)
+        if c['fam'] in ('star', 'forest'): c['bs'] = 3; c['ncpl'] = 1
+        if c['fam'] == 'band': c['bl'] = 2; c['bu'] = 1
+        c['symm'] = 1; c['ord'] = 2; c['u'] = 0.0; c['dom'] = rng.choice(['row', 'col']); c['equil'] = 0; c['trans'] = 0; c['stype'] = 'nc'
+        for k in ('rscale', 'cscale', 'factored', 'trans2'): c.pop(k, None)
+        out.append(({'variant': 'plain', 'prec': prec}, c))
+    return out
+
+PROPS['C16'] = dict(gen=gen_c16, relevant=('C16|', 'C02|', 'C05|L-slot-overrun', 'C07|backward-error', 'race|'), counters=EV_COUNTERS + ('symm_diag',), batch=25,
+                    nontrivial=lambda r: (r.get('result') or {}).get('n', 0) >= 4 and (r.get('result') or {}).get('info') in (0,),
+                    rule='symmetric mode (SymmetricMode=YES, ordering on A^T+A, threshold 0) on row- or column-diagonally dominant matrices with symmetric and unsymmetric patterns, direct factorization and expert driver, '
+                    '4 precisions, 1..8 threads, perturbed, plain/ASan/TSan builds; distinct = sha1(case); non-trivial = n>=4 and info=0; oracle: C02 reconstruction and multiplier checks, perm_r == perm_c, '
+                    'every column of L no longer than the symmetric prediction colcnt_h, slot-bound monitor at every L allocation, sanitizers silent',
+                    floors={'symm_diag': 800, 'pipe_takes': 100})
+
+# ---- C20 ----
+def gen_c20(ctx):
+    from vlib import mmio
+    rng = ctx.rng
+    out = []
+    N = 1200 if ctx.quick else 30000
+    d = os.path.join(getattr(ctx, 'workdir', '/verif/.cache'), 'files')
+    os.makedirs(d, exist_ok=True)
+    for i in range(N):
+        prec = rng.choice(PRECS)
+        cplx = prec in 'cz'; single = prec in 'sc'
+        fmt = rng.choice(['hb', 'hb', 'rb', 'rb', 'mt'])
+        text, exp = {'hb': mmio.write_hb, 'rb': mmio.write_rb, 'mt': mmio.write_mt}[fmt](rng, cplx, single)
+        path = os.path.join(d, 'm%d.%s' % (i, fmt))
+        with open(path, 'w') as f:
+            f.write(text)
+        c = {'cmd': 'read', 'fmt': fmt, 'file': path}
+        out.append(({'variant': 'asan' if i % 2 else 'plain', 'prec': prec, 'per_process': True, 'expect': exp, 'dump': False, 'text': text if i < 40 else None}, c))
+    return out
+
+def judge_c20(ctx, r, out):
+    from vlib import mmio
+    res = r.get('result'); m = r['meta']; exp = m['expect']
+    if res is None or r.get('rc', 0) != 0 or r.get('timeout'):
+        return False
+    prec = m['prec']; cplx = prec in 'cz'; single = prec in 'sc'
+    fmt = exp['fmt']
+    tag = '%s|%s' % (fmt, exp['desc'].strip('()').lstrip('0123456789P').lstrip('0123456789')[:1] if fmt != 'mt' else 'free')
+    if (res.get('m'), res.get('n'), res.get('nnz')) != (exp['m'], exp['n'], exp['nnz']):
+        out.append(('C20|dimensions|%s' % fmt, 'reader returned %sx%s nnz %s, file encodes %sx%s nnz %s' % (res.get('m'), res.get('n'), res.get('nnz'), exp['m'], exp['n'], exp['nnz'])))
+        return True
+    if exp['sym']:
+        # the file stores one triangle of a symmetric / skew / hermitian matrix: the reader has to expand it
+        full = exp['nnz'] * 2 - sum(1 for j in range(exp['n']) for q in range(exp['colptr'][j], exp['colptr'][j + 1]) if exp['rowind'][q] == j)
+        if res.get('nnz') != full:
+            out.append(('C20|symmetric-not-expanded|%s' % fmt, 'file type %s stores %d entries of a matrix with %d; the reader returned %s' % (exp['sym'], exp['nnz'], full, res.get('nnz'))))
+        return True
+    if res.get('colptr') != exp['colptr']:
+        out.append(('C20|colptr|%s' % fmt, 'column pointers differ: %s vs %s' % (str(res.get('colptr'))[:80], str(exp['colptr'])[:80])))
+        return True
+    # same set of (i,j) per column, values attached
+    rw = res.get('rowind') or []
+    if rw != exp['rowind']:
+        out.append(('C20|rowind|%s' % fmt, 'row indices differ: %s vs %s' % (str(rw)[:80], str(exp['rowind'])[:80])))
+        return True
+    hx = res.get('valhex', '')
+    width = 4 if single else 8
+    per = 2 if cplx else 1
+    nreal = exp['nnz'] * per
+    if len(hx) != nreal * width * 2:
+        out.append(('C20|value-count|%s' % fmt, 'value array has %d bytes, expected %d' % (len(hx) // 2, nreal * width)))
+        return True
+    for q in range(nreal):
+        raw = bytes.fromhex(hx[q * width * 2:(q + 1) * width * 2])
+        bits = int.from_bytes(raw, 'little')
+        acc = mmio.expected_bits(exp['vals'][q], single)
+        if bits not in acc:
+            out.append(('C20|value|%s' % tag, 'entry %d printed as "%s" was read as bits %x, expected one of %s' % (q, exp['vals'][q], bits, ['%x' % a for a in acc])))
+            break
+    return True
+
+def cov_c20(ctx, recs):
+    k = collections.Counter(); descs = set(); texts = []
+    for r in recs.values():
+        e = r['meta']['expect']
+        k['%s/%s%s' % (e['fmt'], r['meta']['prec'], '/sym' if e['sym'] else '')] += 1
+        descs.add(e['desc'])
+        if r['meta'].get('text') and len(texts) < 2: texts.append(r['meta']['text'][:600])
+    return {'files_by_format_precision': dict(k), 'distinct_value_descriptors': len(descs), 'sample_file_heads': texts}
+
+PROPS['C20'] = dict(gen=gen_c20, relevant=('C20|',), counters=('nnz',), batch=1, judge=judge_c20, coverage_extra=cov_c20,
+                    nontrivial=lambda r: (r.get('result') or {}).get('nnz', 0) >= 2,
+                    rule='files written by an independent python writer (from the format definitions in the readers` header comments): Harwell-Boeing with optional right-hand-side header and data, Rutherford-Boeing, '
+                    'column-triplet; random m x n patterns incl. empty columns, random legal (kIw) and (kEw.d)/(kDw.d)/(kFw.d)/(1PkEw.d) descriptors within 80 columns, D and E exponents, real and complex, '
+                    'symmetric/skew/hermitian type codes; fed to ?readhb/?readrb/?readmt on stdin of a child (plain and ASan); distinct = sha1(case); non-trivial = nnz>=2; '
+                    'oracle: dimensions, column pointers and row indices identical, every value bit-identical to the correctly rounded printed decimal (for single precision the value double-rounded through binary64 is accepted too)')
